@@ -1372,9 +1372,23 @@ func (g *Gen) preexisting(v Val) {
 	default:
 		return
 	}
-	if strings.HasPrefix(v.T, "(select H0$") && strings.Count(v.T, "(") == 1 {
+	if strings.HasPrefix(v.T, "(select H0$") && (strings.Count(v.T, "(") == 1 || entryChain(v.T)) {
 		g.vc.assume("", fmt.Sprintf("(<= (allocid$ %s) 0)", v.T))
 	}
+}
+
+// entryChain: the term is a chain of reads of entry heaps starting at a parameter, (select H0$a (select H0$b ... p_x)):
+// every object on such a chain existed when the function was entered.
+func entryChain(t string) bool {
+	for strings.HasPrefix(t, "(select H0$") && strings.HasSuffix(t, ")") {
+		rest := t[len("(select "):]
+		i := strings.Index(rest, " ")
+		if i < 0 {
+			return false
+		}
+		t = rest[i+1 : len(rest)-1]
+	}
+	return strings.HasPrefix(t, "p_") && !strings.ContainsAny(t, " ()")
 }
 
 // evalLenient evaluates a boolean contract expression, replacing sub-formulas that cannot be evaluated at this
